@@ -783,6 +783,8 @@ pub struct Obs {
     pub keys: BTreeMap<String, Option<String>>,
     /// (root name, probe source) -> result
     pub probes: BTreeMap<(String, String), (Status, Option<String>)>,
+    /// closed functions whose result depends on the scope they are called from
+    pub shadow_mismatch: Vec<String>,
 }
 
 #[derive(Clone, Debug, Serialize, Deserialize)]
@@ -799,6 +801,9 @@ pub struct Model {
     bound: BTreeMap<String, (Option<String>, BTreeMap<(String, String), (Status, Option<String>)>)>,
     /// names whose value is known to contain only transitively closed functions.
     tc: BTreeSet<String>,
+    /// subset of `tc`: no function in the value reads even its own name late-bound, so its
+    /// result cannot depend on the scope it is called from
+    tcs: BTreeSet<String>,
     last: Obs,
     inputs0: Option<String>,
     pub violation: Option<Viol>,
@@ -860,6 +865,7 @@ impl Model {
             builtins,
             bound: BTreeMap::new(),
             tc: BTreeSet::new(),
+            tcs: BTreeSet::new(),
             last: Obs::default(),
             inputs0: None,
             violation: None,
@@ -909,10 +915,28 @@ impl Model {
                 let mut paths = vec![];
                 function_paths(&sv, k, 0, &mut paths);
                 for (p, args) in paths {
-                    for src in probe_sources(k, &p, &args) {
-                        let r = sess.probe(&src);
+                    let srcs = probe_sources(k, &p, &args);
+                    let mut rs = vec![];
+                    for src in &srcs {
+                        let r = sess.probe(src);
                         self.stats.inc("probes");
-                        o.probes.insert((k.clone(), src), r);
+                        o.probes.insert((k.clone(), src.clone()), r.clone());
+                        rs.push(r);
+                    }
+                    // a closed function called where every other name is shadowed (by do-block
+                    // locals, by parameters) gives what it gives at top level
+                    if self.tcs.contains(k) {
+                        for (ss, tr) in srcs.chunks(3).zip(rs.chunks(3)) {
+                            if tr[0].0 != Status::Ok {
+                                continue;
+                            }
+                            for j in 1..tr.len() {
+                                self.stats.inc("shadow_context_comparisons");
+                                if tr[j] != tr[0] {
+                                    o.shadow_mismatch.push(format!("`{}` gives {:?} but `{}` gives {:?}", ss[0], tr[0], ss[j], tr[j]));
+                                }
+                            }
+                        }
                     }
                 }
             }
@@ -921,6 +945,10 @@ impl Model {
     }
 
     fn is_tc_assignment(&self, name: &str, rhs: &E) -> bool {
+        self.is_closed_assignment(name, rhs, false)
+    }
+
+    fn is_closed_assignment(&self, name: &str, rhs: &E, strict: bool) -> bool {
         if contains_raw(rhs) {
             return false;
         }
@@ -929,10 +957,11 @@ impl Model {
             return false;
         }
         for n in free {
-            if self.tc.contains(&n) || self.builtins.contains(&n) || n == "constants" || n == "inf" || n == "infinity" {
+            let set = if strict { &self.tcs } else { &self.tc };
+            if set.contains(&n) || self.builtins.contains(&n) || n == "constants" || n == "inf" || n == "infinity" {
                 continue;
             }
-            if n == name && matches!(rhs, E::Lam(..)) {
+            if !strict && n == name && matches!(rhs, E::Lam(..)) {
                 continue;
             }
             return false;
@@ -1015,6 +1044,10 @@ impl Model {
                     }
                 }
             }
+        }
+        // 0c. closed functions do not see the caller's names
+        if let Some(m) = after.shadow_mismatch.first() {
+            self.fail("caller-scope-seen-by-closed-function", gi, m.clone());
         }
         // 0b. a name that is not a root key does not evaluate
         for ((root, name), r) in &after.probes {
@@ -1112,10 +1145,17 @@ impl Model {
         }
         let had_new_tc = !new_tc.is_empty();
         for k in new_tc {
+            let mine: Vec<&(&str, &E)> = assigns.iter().filter(|(n, _)| *n == k).collect();
+            if mine.iter().all(|(n, rhs)| self.is_closed_assignment(n, rhs, true)) {
+                self.tcs.insert(k.clone());
+            }
             self.tc.insert(k);
         }
         // first observation (with probes for names that just became tc)
         let after2 = if had_new_tc { self.observe(sess, self.probe_every || force_probes) } else { after };
+        if let Some(m) = after2.shadow_mismatch.first() {
+            self.fail("caller-scope-seen-by-closed-function", gi, m.clone());
+        }
         for (k, c) in &after2.keys {
             if !self.bound.contains_key(k) && k != "inputs" {
                 let ps: BTreeMap<(String, String), (Status, Option<String>)> =
